@@ -492,7 +492,8 @@ Section GenericCall.
   Proof.
     induction snap as [|h rest IH]; intros st res st' evs status res' Hi Hb Hq; cbn [emit_loop] in Hq.
     - inversion Hq; subst. split; [apply le_refl; auto|].
-      exists []. repeat split; try constructor; cbn; intros; try tauto. rewrite orb_false_r; auto.
+      exists []. split; [apply sl_nil|]. split; [reflexivity|]. split; [intros h []|].
+      intros _. split; [intros h []|]. split; [intros c []|]. cbn. rewrite orb_false_r; auto.
     - assert (Hbr : forall x, In x rest -> h_key x < st_nkey st) by (intros; apply Hb; right; auto).
       destruct (memz (h_key h) (keys st s n)) eqn:Em; cbn [negb] in Hq.
       + (* connected at its turn: _call_callback *)
@@ -508,16 +509,16 @@ Section GenericCall.
           split; auto.
           assert (Hstart' : forall x, In x called -> In (h_key x) (keys st s n) /\ wargs_alive st x).
           { intros x Hx. destruct (Hstart x Hx) as [Hk Ha]. split.
-            - eapply le_keys; eauto. apply Hbr. eapply sublist_In; eauto.
-            - intros w Hw Hd. apply (Ha w Hw). eapply le_dead; eauto. }
+            - apply (le_keys st st1 s n (h_key x) Hl1); [apply Hbr; eapply sublist_In; eauto | exact Hk].
+            - intros w Hw Hd. apply (Ha w Hw). apply (le_dead _ _ Hl1); auto. }
           destruct Hcase as [[Hna [-> [-> [_ ->]]]] | [Ha [ret [Hdc Hret]]]].
           -- (* a weak argument is dead: returns False without calling *)
-             exists called. cbn [app]. split; [constructor; auto|]. split; auto. split; auto.
+             exists called. cbn [app]. split; [apply sl_skip; auto|]. split; auto. split; auto.
              intros Hd. destruct (Hdone Hd) as [Hall [Hrets Hres]]. split; [|split; auto].
              ++ intros x [<-|Hx] Hk Hal; auto.
                 exfalso. apply Hna. intros w Hw Hdd. apply (Hal w Hw). eapply le_dead; eauto.
              ++ rewrite Hres. rewrite orb_false_r. auto.
-          -- exists (h :: called). split; [constructor; auto|]. split; [|split].
+          -- exists (h :: called). split; [apply sl_take; auto|]. split; [|split].
              ++ rewrite direct_calls_app, Hdc, map_app, Hsig. reflexivity.
              ++ intros x [<-|Hx]; auto. split; auto. apply memz_In; auto.
              ++ intros Hd. destruct (Hdone Hd) as [Hall [Hrets Hres]].
@@ -530,12 +531,12 @@ Section GenericCall.
         * (* an exception left the callback *)
           inversion Hq; subst; clear Hq. split; auto.
           destruct Hcase as [[_ [_ [_ [Hx _]]]] | [Ha [ret [Hdc Hret]]]]; [discriminate|].
-          exists [h]. split; [constructor; apply sublist_nil_l|]. split; [rewrite Hdc; reflexivity|]. split.
+          exists [h]. split; [apply sl_take; apply sublist_nil_l|]. split; [rewrite Hdc; reflexivity|]. split.
           -- intros x [<-|[]]. split; auto. apply memz_In; auto.
           -- intros Hx; discriminate.
       + (* disconnected in the meantime: skipped *)
         destruct (IH _ _ _ _ _ _ Hi Hbr Hq) as [Hl [called [Hsub [Hsig [Hstart Hdone]]]]].
-        split; auto. exists called. split; [constructor; auto|]. split; auto. split; auto.
+        split; auto. exists called. split; [apply sl_skip; auto|]. split; auto. split; auto.
         intros Hd. destruct (Hdone Hd) as [Hall Hres]. split; auto.
         intros x [<-|Hx] Hk Hal; auto.
         exfalso. apply memz_false in Em. apply Em.
@@ -667,11 +668,11 @@ Section Emit.
     destruct emit_unfold as [ch [res [El ->]]].
     eapply (emit_loop_spec (run_seq (run_op f env))) in El; auto.
     - destruct El as [Hl [called [Hsub [Hsig [Hstart Hdone]]]]].
-      exists ch, res, called. repeat split; auto.
-      + intros h Hh. apply Hstart; auto.
-      + apply Hdone; auto.
-      + apply Hdone; auto.
-      + destruct (Hdone H) as [_ [_ Hr]]. rewrite Hr. reflexivity.
+      exists ch, res, called.
+      split; [reflexivity|]. split; [exact Hl|]. split; [exact Hsub|]. split; [exact Hsig|].
+      split; [intros h Hh; apply Hstart; auto|].
+      intros Hd. destruct (Hdone Hd) as [H1 [H2 Hr]].
+      split; [exact H1|]. split; [exact H2|]. rewrite Hr. reflexivity.
     - intros ops st0 Hi0. apply run_seq_run_op_le; auto.
     - intros h Hh. apply (proj2 (Hinv s n)). unfold keys. apply in_map; auto.
   Qed.
@@ -750,6 +751,14 @@ Section Emit.
 End Emit.
 
 (* what happens at one handler's turn, in the state reached when its turn comes *)
+Lemma call_callback_dead run env args h st :
+  ~ wargs_alive st h -> call_callback run env args h st = (st, [], Done, false).
+Proof.
+  intros Hna. unfold call_callback.
+  destruct (existsb (fun w => memz w (st_dead st)) (h_wargs h)) eqn:E; auto.
+  apply dead_check_false in E. contradiction.
+Qed.
+
 Lemma emit_turn_skipped run env args s n h post st res :
   (~ In (h_key h) (keys st s n)) \/ (In (h_key h) (keys st s n) /\ ~ wargs_alive st h) ->
   emit_loop (call_callback run env args) s n (h :: post) st res
@@ -758,11 +767,8 @@ Proof.
   intros [Hn | [Hk Hna]]; cbn [emit_loop].
   - apply memz_false in Hn. rewrite Hn. reflexivity.
   - apply memz_In in Hk. rewrite Hk. cbn [negb].
-    unfold call_callback.
-    destruct (existsb (fun w => memz w (st_dead st)) (h_wargs h)) eqn:E.
-    + destruct (emit_loop (call_callback run env args) s n post st (res || false)) as [[[st2 e2] s2] r2] eqn:El.
-      rewrite orb_false_r in El. unfold call_callback in El. rewrite El. reflexivity.
-    + apply dead_check_false in E. contradiction.
+    rewrite (call_callback_dead run env args h st Hna). rewrite orb_false_r.
+    destruct (emit_loop (call_callback run env args) s n post st res) as [[[st2 e2] s2] r2]. reflexivity.
 Qed.
 
 Lemma emit_turn_called run env args s n h post st res :
@@ -865,6 +871,37 @@ Proof.
   - destruct (c0 =? c) eqn:E0.
     + apply Z.eqb_eq in E0; subst c0. cbn [sup_lookup]. destruct (c =? c'); auto.
     + cbn [sup_lookup]. destruct (c0 =? c') eqn:E1.
-      * apply Z.eqb_eq in E1; subst c0. rewrite E0. reflexivity.
+      * apply Z.eqb_eq in E1; subst c0. rewrite Z.eqb_sym, E0. reflexivity.
       * apply IH.
+Qed.
+
+(* a removed key never comes back: "still connected after" means "connected throughout" *)
+Lemma removed_keys_stay_removed_op fuel env o st s n k :
+  Inv st -> k < st_nkey st -> ~ In k (keys st s n) -> ~ In k (keys (fst (fst (run_op fuel env o st))) s n).
+Proof. intros Hi Hk Hn Hin. apply Hn. eapply le_keys; eauto. apply run_op_le; auto. Qed.
+
+Lemma removed_keys_stay_removed_history fuel env ops st s n k :
+  Inv st -> k < st_nkey st -> ~ In k (keys st s n) -> ~ In k (keys (fst (run_top fuel env ops st)) s n).
+Proof. intros Hi Hk Hn Hin. apply Hn. eapply le_keys; eauto. apply run_top_le; auto. Qed.
+
+(* dropping the last reference to an object nobody holds: it dies at once and exactly the
+   handlers that reference it weakly are removed (senders that are true in a boolean context) *)
+Lemma kill_unheld_proof fuel env o st :
+  In o (st_reg st) -> ~ In o (st_held st) -> cyclic env o = false -> st_pend st = [] ->
+  exists st',
+    run_op fuel env (OKill o) st = (st', [EvKill o 0; EvDied o], Done) /\
+    In o (st_dead st') /\
+    forall s n, handlers st' s n =
+      if sender_truthy env s then filter (fun h => negb (memz o (h_wargs h))) (handlers st s n)
+      else handlers st s n.
+Proof.
+  intros Hr Hh Hc Hp.
+  assert (run_op fuel env (OKill o) st = kill env o st) by (destruct fuel; reflexivity).
+  rewrite H. unfold kill. apply memz_In in Hr. rewrite Hr. rewrite Hp. cbn [insert_sorted].
+  unfold reap. cbn [st_pend set_pend set_reg filter].
+  assert (Hd : dying env false (set_pend (set_reg st (filter (fun x => negb (x =? o)) (st_reg st))) [o]) o = true).
+  { unfold dying. cbn [st_held set_pend set_reg]. apply memz_false in Hh. rewrite Hh, Hc. reflexivity. }
+  rewrite Hd. cbn [negb fold_left map].
+  eexists. split; [reflexivity|]. split; [cbn; auto|].
+  intros s n. rewrite handlers_die. reflexivity.
 Qed.
